@@ -7,6 +7,10 @@ T1  Generated/MetaFields.lean : every struct field reachable from queue.QueueMet
 T2  C10 parse / rt            : the real textproto.ReadHeader / WriteHeader vs Model/Wire.lean
     C10 run                   : one message through the REAL queue under a history restart x retry vs Model/WireSpool.lean
     (C10 smtp)                : the same behind a REAL SMTP endpoint + pipeline; handed to the model as a `C10 run` line
+    C10 fleet                 : SEVERAL messages through SEVERAL queue blocks built by NewQueue + Init from a configuration node
+                                (instance names, location directive / inline argument / default place, max_parallelism) under load
+                                (hanging next hops, busy delivery slots, two sessions at once), a restart of all blocks, and a process
+                                that dies while a message body is copied into the spool, vs Model/WireSpool.lean (SpoolFleet)
 T3  monitor                   : every attempt compared byte for byte with what was accepted; every spool file grepped for
                                 the credentials of the authenticated connection; the other half - the target IS handed the
                                 message while recipients are pending (by the recording target's own answers - every deferred
@@ -29,14 +33,21 @@ T3  monitor                   : every attempt compared byte for byte with what w
                                 ID.header / ID.body / ID.meta.new files of the message's own id in the spool before it is
                                 stored: every attempt still gets the accepted bytes, and right after acceptance / at rest the
                                 header and body files are the accepted bytes, ID.meta one JSON document
-                                (C10/spool-content-changed)
+                                (C10/spool-content-changed);
+                                C10 fleet: whatever the next hop of a queue block is handed - first attempts made while the
+                                block's delivery slots are busy, attempts after a restart of the server, attempts of a queue started
+                                on what a process left that died in the middle of a store operation - carries the ID of a message
+                                THAT block was given, with that message's sender, recipient, header bytes and body bytes
+                                (C10/foreign-message-handed-over, C10/sender-changed, C10/pending-recipients-changed,
+                                C10/header-bytes-changed, C10/body-bytes-changed); every accepted message has its first attempt and
+                                every message left pending is handed over by ITS block after the restart (C10/pending-message-dropped)
 """
 import os
 import re
 import sys
 
 PKGS = ["./internal/target/queue/"]
-RUN = "^TestVerifC10(Header|Run|Smtp)$"
+RUN = "^TestVerifC10(Header|Run|Smtp|Fleet)$"
 
 
 def gen_fields(c):
@@ -58,7 +69,7 @@ def gen_fields(c):
 
 def harness(c, n, replay_ops=None):
     rc, out, outdir = c.go_harness(PKGS, RUN, n=n, replay_ops=replay_ops, timeout=2400)
-    corr, _ = c.collect(outdir, names=["c10_hdr", "c10_run", "c10_smtp"])
+    corr, _ = c.collect(outdir, names=["c10_hdr", "c10_run", "c10_smtp", "c10_fleet"])
     c.correspond(corr)
 
 
@@ -113,13 +124,20 @@ def run(c):
         "meta leftover = another message's JSON document) in 20% of the random cases and an 80-case grid x (first attempt over the spool's body file, in-process retry, after a restart, after R / a crash before Commit, at rest); "
         "(d) the same behind a real SMTP endpoint and pipeline over TCP (AUTH PLAIN, SMTPUTF8, REQUIRETLS, BODY=8BITMIME, TLS-Required: No header, dot-stuffed DATA, bodies above the 1 MiB spill threshold, addresses that are not valid UTF-8; "
         "TLS-Required spellings and the other envelope fields on top of 35% of the client headers, leftover files of the id the endpoint gave the message in 20%; 10% with the queue shut down right before Commit and restarted before the first attempt; bounce pipeline attached in 80%, Bcc field from the client in 20%; the same edge grid: empty body, a lone line end, 4 KiB / 32 KiB / 1 MiB boundaries, client header = CRLF only); "
+        "(e) fleets: 1-3 target.queue blocks configured through NewQueue + Init (instance names from a pool and from families that differ only in case / an extension / blanks / a path prefix / the module name; "
+        "spool = default place under the state directory (65%), location directive or inline argument), max_parallelism 1-3, 2-7 messages with sender, recipient, header (2-6 fields) and body (0 B - 1 MiB) of their own, "
+        "20% carrying the ID of a message of ANOTHER block; first attempt taken / deferred / hanging in the next hop's Start (holding a delivery slot, so that later messages of the block wait for one), "
+        "25% of the messages stored while the previous one is not committed yet (two sessions at once); then all blocks shut down and started again with the next hops up; "
+        "up to two messages per case stored by a process that dies after 0, 1/4, 1/2, 3/4 of the body was read resp. right after the last byte (a copy of the spool directory taken at that instant; a queue is started on it); "
         "distinct = distinct op lines",
         explanation="theorems over all headers, bodies, envelopes and histories; decide over the regenerated field table and code skeleton; "
         "models tied to textproto and queue.go by differential runs; the monitor compares every attempt with what was accepted, greps the spool for the credentials, "
         "and requires that a message with pending recipients is attempted when the history says so and is complete and unaltered in the spool whenever the queue is at rest; "
         "failure reports generated between attempts (and by a second queue sharing header value and metadata) must leave every later attempt and the source's own header / metadata as accepted; "
         "the store step is 'file := new content' (C10_store_overwrites_leftovers; os.Create pinned by the regenerated writer list), the envelope handed over never depends on the header (C10_override_does_not_depend_on_the_header); "
-        "what an attempt leaves pending is the set of the deferred addresses, each once, in order of first occurrence (C10_pending_is_the_retry_set_each_once, C10_repeated_recipient_is_pending_once)",
+        "what an attempt leaves pending is the set of the deferred addresses, each once, in order of first occurrence (C10_pending_is_the_retry_set_each_once, C10_repeated_recipient_is_pending_once); "
+        "blocks with distinct instance names keep their files in distinct places, a restarted block hands its next hop exactly the entries it stored itself, a store operation that is interrupted leaves no entry "
+        "(C10_fleet_dirs_distinct, C10_fleet_restart_hands_own_messages_only, C10_fleet_restart_hands_every_pending_message, C10_fleet_crash_while_storing_leaves_no_entry, C10_fleet_spool_holds_accepted_messages_only)",
         search=search,
     )
 
